@@ -631,7 +631,7 @@ end
 -- 5: after several caught overflows at a full registry, resume of a fresh coroutine with about as many values as fit
 local function edge_coargs()
   if not pcall(unpack, NOPAD, 1, 6000) then
-    for i = 1, 11 do pcall(unpack, NOPAD, 1, 6000) end
+    for i = 1, 150 do pcall(unpack, NOPAD, 1, 6000) end -- (each one leaves the registry one slot larger)
   end
   return edge(function(n)
     local co = coroutine.create(function(...) return select('#', ...) end)
